@@ -67,12 +67,32 @@ def describe(fn, origins):
     return out
 
 
+def names_are_not_taken_apart(F, rep, rule="C19.destination"):
+    """The library and the function a `call_lib` names reach the loader as the instruction spelled them.  On the way from the handler to
+    Library::new / Library::get (call_lib, Program::process_jump_request, process_library_jump_request) no text is cut at a separator: a path may
+    contain any character a `path#symbol` encoding would use (`/x/c#/lib.so`), and a cut at the first one asks the loader for another file."""
+    CUTS = ("::split_once", "::rsplit_once", "::split", "::rsplit", "::splitn", "::rsplitn", "::find", "::rfind", "::split_at", "::split_terminator")
+    fns = [g for g in F.crates["bytecode"].fns if g.path.endswith(("implementations::call_lib", "Program::process_jump_request", "Program::process_library_jump_request"))
+           or any(g.path.startswith(p_ + "::{closure") for p_ in ("bytecode::instruction::implementations::call_lib", "bytecode::interpreter::Program::process_jump_request",
+                                                                   "bytecode::interpreter::Program::process_library_jump_request"))]
+    rep.floor(rule + " functions between call_lib and the loader", len([g for g in fns if g.kind != "Closure"]), 3)
+    for g in sorted(fns, key=lambda x: x.path):
+        if g.kind == "Closure":
+            continue
+        bodies = [g] + F.closures_of(g)
+        cuts = sorted({mir.short(c.callee()) for b in bodies for c in b.calls() if mir.strip_generics(c.callee()).endswith(CUTS) and "str" in c.callee()})
+        rep.ob(rule, "%s cuts no text at a separator" % mir.short(g.path), "violated" if cuts else "ok",
+               ("calls %s: a library path that contains the separator (`/x/c#/libdemo.so`) is cut short and another file - or none - is loaded" % cuts) if cuts else "",
+               g.span, fn=g.path, key="%s|uncut|%s" % (rule, mir.short(g.path)))
+
+
 def run(ctx, rep):
     F = ctx.facts("default", ["bytecode"])
     rep.explain("C19: R-FLOW pass-through chain over MIR from the operand stack to the foreign function's argument slice and from "
                 "its return value to the operand stack; R-DOM no-instruction-after-failure; error discipline on Library::new/get.")
     rep.assume("the ABI of the loaded symbol (`fn(&[Primitive]) -> ReturnValue`) is an unsafe trust boundary")
     rep.assume("libloading::Library::{new,get} report a missing library / symbol as Err")
+    names_are_not_taken_apart(F, rep)
 
     # ---- (a) call_lib -----------------------------------------------------
     f = need(F, "bytecode::instruction::implementations::call_lib")
